@@ -67,6 +67,7 @@ LAG_TRANSFORMS = ("diff", "diff_log", "roc", "pct")
 POS_TRANSFORMS = ("log", "diff_log", "roc", "pct")
 ORDERS = ("dates_equations", "equations_dates")
 NAN = float("nan")
+_WORST = [0.0]
 
 
 def _ir():
@@ -567,7 +568,7 @@ def _judge(case, col, m, order, tag, labels):
         if col.items:
             return
         for eq in eqs:
-            if eq["ident"]:
+            if eq["ident"] and not (case["target"] and f"res_{eq['lhs']}" in case["data"]):
                 col.check(f"res_{eq['lhs']}" not in out.keys(), "identity:has_residual",
                           lambda: f"{tag} {exec_order}: identity {_equation_text(eq)!r} got a residual series in the output")
         if case["target"]:
@@ -583,26 +584,23 @@ def _judge(case, col, m, order, tag, labels):
                           lambda: f"{tag} {exec_order}: series {name!r} of target_db is not returned unchanged: {got} vs {exp}")
         outputs[exec_order] = O
         all_fresh = True
+        step_index = {st_: i for i, st_ in enumerate(_steps(len(eqs), T, exec_order))}
+        lhs_pos = {eq["lhs"]: pos for pos, eq in enumerate(eqs)}
         for v in range(nv):
-            W, info = refs[exec_order][v]
             par = {nm: float(vals[min(v, len(vals) - 1)]) for nm, vals in case["params"].items()}
 
-            k_holder = [0]
-
-            # values as irispie left them; beyond the span end the (removed) terminal cells are the input
-            def get(name, s, _v=v, _k=k_holder, _O=O):
-                kk = _k[0] + s
-                gg = kk + P
-                if gg < 0 or gg >= G:
-                    return (NAN, 0.0)
-                if kk >= T:
-                    return (_cell(case, name, _v, gg), 0.0)
-                return (_O[name][_v][gg], 0.0)
+            def exogenized(pos, k, _v=v):
+                """(transform, when_data, data value) if the plan exogenizes the step and the data are there."""
+                eq = eqs[pos]
+                point = None if eq["ident"] else plan_map.get((eq["lhs"], k))
+                if point is None:
+                    return None
+                value = _cell(case, _exo_name(eq["lhs"], point[0]), _v, k + P)
+                return None if math.isnan(value) else (point[0], point[1], value)
 
             # ---- cells that are not simulated ---------------------------------
             for name in lhs_names + res_names + rhs_only:
-                is_res = name in res_names
-                hi = P if name in lhs_names or is_res else P + T
+                hi = P if (name in lhs_names or name in res_names) else P + T
                 for g in range(hi):
                     a, b = O[name][v][g], _cell(case, name, v, g)
                     if not _same(a, b):
@@ -614,7 +612,7 @@ def _judge(case, col, m, order, tag, labels):
                 if rn is None:
                     continue
                 for k in range(T):
-                    if info[(pos, k)]["exo"]:
+                    if exogenized(pos, k) is not None:
                         continue
                     b = _cell(case, rn, v, k + P)
                     a = O[rn][v][k + P]
@@ -624,17 +622,47 @@ def _judge(case, col, m, order, tag, labels):
                         break
 
             # ---- equations, exogenized values ------------------------------------
-            for (pos, k), st_ in sorted(info.items()):
+            for (pos, k), idx in sorted(step_index.items()):
                 eq = eqs[pos]
                 x, tr, rn = eq["lhs"], eq["tr"], _residual_name(eq)
                 g = k + P
-                k_holder[0] = k
+                seen = {"stale": False, "nonfinite": False}
+
+                # Values as this step saw them: cells the order had already computed (and cells that are never
+                # simulated) are what the output holds; a left-hand cell computed only later still held the input.
+                # Beyond the span end the (removed) terminal cells are the input.
+                def get(name, s, _v=v, _k=k, _idx=idx, _pos=pos, _seen=seen, _O=O):
+                    kk = _k + s
+                    gg = kk + P
+                    if gg < 0 or gg >= G:
+                        val = NAN
+                    elif kk >= T:
+                        val = _cell(case, name, _v, gg)
+                    else:
+                        q = lhs_pos.get(name)
+                        if q is not None and kk >= 0 and step_index[(q, kk)] > _idx:
+                            _seen["stale"] = True
+                            val = _cell(case, name, _v, gg)
+                        else:
+                            val = _O[name][_v][gg]
+                    if not math.isfinite(val) and not (name == eqs[_pos]["lhs"] and s == 0):
+                        _seen["nonfinite"] = True
+                    return (val, 0.0)
+
                 x_out = O[x][v][g]
-                xlag_out = O[x][v][g - 1] if g >= 1 else NAN
-                kind = "identity" if eq["ident"] else ("exogenized" if st_["exo"] else "simulated")
-                if st_["exo"]:
-                    ptr, when_data = plan_map[(x, k)]
-                    value = _cell(case, _exo_name(x, ptr), v, g)
+                xlag_out = O[x][v][g - 1]
+                exo = exogenized(pos, k)
+                kind = "identity" if eq["ident"] else ("exogenized" if exo else "simulated")
+                rhs = _ev(eq["rhs"], get, par, False)
+                if tr in LAG_TRANSFORMS or (exo and exo[0] in LAG_TRANSFORMS):
+                    get(x, -1)
+                if seen["nonfinite"] or rhs[0] != rhs[0]:
+                    # a non-finite input of this step, or inputs on which the right-hand side is undefined (log of a
+                    # negative number ...): the fault, if any, lies with the step that produced them and is reported there
+                    labels.append("step_with_unusable_inputs_not_judged")
+                    continue
+                if exo:
+                    ptr, when_data, value = exo
                     imp = _implied(ptr, value, (xlag_out, 0.0), False)
                     if ptr is None:
                         ok = x_out == value
@@ -645,29 +673,24 @@ def _judge(case, col, m, order, tag, labels):
                               lambda: f"{tag} {exec_order} v{v}: {x}[k={k}] exogenized through {ptr or 'its level'}"
                                       f"{' when_data' if when_data else ''} with data value {value!r}: implied level "
                                       f"{imp[0]!r}, output {x_out!r}")
-                if st_["stale"]:
-                    all_fresh = False
-                    # own information: the step as the harness simulation computed it
-                    for name in (x, rn) if (rn is not None and st_["exo"]) else (x,):
-                        ref_v, ref_e = W[name][g]
-                        a = O[name][v][g]
-                        tol = RTOL * (ref_e / U + abs(ref_v))
-                        col.check(_close(a, ref_v, tol), f"own_information:{exec_order}:{kind}",
-                                  lambda: f"{tag} {exec_order} v{v}: step {_equation_text(eq)!r} at k={k} read a cell that is "
-                                          f"overwritten later; with the information available at that step {name} should be "
-                                          f"{ref_v!r}, output {a!r}")
-                    continue
                 t_val = _ev(_transform_tree(tr, x), get, par, False)
-                rhs = _ev(eq["rhs"], get, par, False)
                 res = 0.0 if rn is None else O[rn][v][g]
                 d = t_val[0] - rhs[0] - res
                 scale = (t_val[1] + rhs[1]) / U + abs(t_val[0]) + abs(rhs[0]) + abs(res) + _inversion_scale(tr, x_out, xlag_out)
                 ok = (d == d) and abs(d) <= RTOL * scale
-                bucket = "equation:exogenized" if st_["exo"] else f"equation:{kind}:{tr}"
+                if ok and scale > 0 and abs(d) / (RTOL * scale) > _WORST[0]:
+                    _WORST[0] = abs(d) / (RTOL * scale)        # closest accepted call, for tuning the tolerance model
+                if seen["stale"]:
+                    all_fresh = False
+                    bucket = f"own_information:{exec_order}:exogenized" if exo else f"own_information:{exec_order}:{kind}:{tr}"
+                    note = " with the left-hand cells this order computes only later read from the input"
+                else:
+                    bucket = "equation:exogenized" if exo else f"equation:{kind}:{tr}"
+                    note = ""
                 col.check(ok, bucket,
-                          lambda: f"{tag} {exec_order} v{v}: {_equation_text(eq)!r} at k={k} ({kind}): transform(lhs)={t_val[0]!r}, "
-                                  f"rhs={rhs[0]!r}, residual={res!r} (input residual {_cell(case, rn, v, g) if rn else None!r}), "
-                                  f"discrepancy {d!r}, tolerance {RTOL * scale:.3g}")
+                          lambda: f"{tag} {exec_order} v{v}: {_equation_text(eq)!r} at k={k} ({kind}){note}: transform(lhs)="
+                                  f"{t_val[0]!r}, rhs={rhs[0]!r}, residual={res!r} (input residual "
+                                  f"{_cell(case, rn, v, g) if rn else None!r}), discrepancy {d!r}, tolerance {RTOL * scale:.3g}")
         labels.append(f"{tag}:{exec_order}:{'all_fresh' if all_fresh else 'some_stale'}")
         outputs[exec_order + ":fresh"] = all_fresh
 
@@ -727,7 +750,7 @@ def _check(case):
     except _Skip as sk:
         return {"labels": [f"domain_skip:{sk.reason}"], "nontrivial": False}
     col.done()
-    return {"labels": labels, "nontrivial": True}
+    return {"labels": list(dict.fromkeys(labels)), "nontrivial": True}
 
 
 # ---------------------------------------------------------------------------
@@ -743,6 +766,8 @@ def _classify(case):
         labels.append("identity")
     if any(e["ident"] and e["tr"] != "none" for e in eqs):
         labels.append("identity_transformed")
+    if any(e["ident"] and f"res_{e['lhs']}" in case["data"] for e in eqs):
+        labels.append("identity_with_decoy_residual_series")
     refs = [r for e in eqs for r in _references(e["rhs"])]
     has_lag = any(s < 0 for _, s in refs)
     lhs = {e["lhs"] for e in eqs}
@@ -866,7 +891,7 @@ def _case(draw, shuffled=False):
     n = draw(st.sampled_from((2, 2, 3, 3, 4, 5, 6) if shuffled else (1, 1, 2, 2, 3, 3, 4, 5, 6)))
     T = draw(st.integers(1, 8))
     nv = 2 if draw(st.integers(0, 2)) == 2 else 1
-    allow_leads = draw(st.integers(0, 4)) == 4
+    allow_leads = draw(st.integers(0, 3)) == 3
     freq = draw(st.sampled_from(("qq", "yy", "mm", "ii")))
     o = draw(st.integers(0, 40))
     target = draw(st.integers(0, 3)) == 3
@@ -928,8 +953,8 @@ def _case(draw, shuffled=False):
         lo, hi = _value_range(kinds[name])
         data[name] = [_draw_column(draw, lo, hi, G) for _ in range(ncols())]
     for i in range(n):
-        if idents[i]:
-            continue
+        if idents[i] and draw(st.integers(0, 2)) != 2:
+            continue        # (an identity gets a decoy series named like a residual in one case out of three)
         mode = draw(st.sampled_from(("full", "full", "full", "full", "holes", "absent")))
         if mode == "absent":
             continue
